@@ -48,13 +48,24 @@ def Graph.defns (g : Graph) : Nat → Nat → List (Def × Int)
 
 def Graph.depth (g : Graph) : Nat := g.nodes.length + 1
 
+/-- `lock()`: this function and, transitively, everything it derives from (L427-430) -/
+def Graph.lock : Nat → Graph → Nat → Graph
+  | 0, g, _ => g
+  | f + 1, g, n =>
+    let g1 := g.set n { g.get n with locked := true }
+    (g1.get n).mixins.foldl (fun g m => Graph.lock f g m) g1
+
+/-- `_lock_unlinked_ancestors()` (L432-439): a linked mixin keeps propagating, so only *its* unlinked
+    ancestors are locked; an unlinked mixin is locked with everything above it -/
+def Graph.lockUnlinked : Nat → Graph → Nat → Graph
+  | 0, g, _ => g
+  | f + 1, g, n =>
+    (g.get n).mixins.foldl (fun g m =>
+      if (g.get m).children.contains n then Graph.lockUnlinked f g m else Graph.lock f g m) g
+
 /-- `compile()` -/
 def Graph.compile (g : Graph) (n : Nat) : Graph × Option CfgErr :=
-  let x := g.get n
-  -- lock the direct mixins that do not link back to this node (L487-489)
-  let g1 := x.mixins.foldl (fun g m =>
-    let y := g.get m
-    if y.children.contains n then g else g.set m { y with locked := true }) g
+  let g1 := Graph.lockUnlinked (g.nodes.length + 1) g n
   let ds := g1.defns g1.depth n
   match analyze (ds.map (·.1.d)) with
   | .error e => (g1, some e)
@@ -78,13 +89,15 @@ inductive GOp
   | unregister (n : Nat) (id : Nat)
   | call (n : Nat) (c : Call)
 
-/-- `add_mixins` (L434-440); there is no `_update()` here -/
+/-- `add_mixins` (L445-452), followed by `_update()` -/
 def Graph.addMixins (g : Graph) (n : Nat) (ms : List Nat) : Graph × Option Outcome :=
   let x := g.get n
   if x.locked then (g, some .locked) else
   let ms := ms.filter (fun m => m != n)
   let g1 := if x.linkback then ms.foldl (fun g m => let y := g.get m; g.set m { y with children := y.children ++ [n] }) g else g
-  (g1.set n { g1.get n with mixins := (g1.get n).mixins ++ ms }, none)
+  let g2 := g1.set n { g1.get n with mixins := (g1.get n).mixins ++ ms }
+  let (g3, e) := Graph.update g2.depth g2 n
+  (g3, e.map (fun _ => .configError))
 
 def Graph.create (g : Graph) (mixins : List Nat) (linkback : Bool) : Graph :=
   let n := g.nodes.length
